@@ -32,8 +32,9 @@ PROP = dict(
         "key width n < 2^64 (a Go int); every shipped key type has n <= 512",
     ],
     partial=[
-        "HashmapAug/HashmapAugE have no encoder in tongo (MarshalTLB = 'not implemented'): decode side only, tied by "
-        "correspondence (hma.decode) with 32-bit values and extras; no theorem",
+        "HashmapAug/HashmapAugE have no encoder in tongo (MarshalTLB = 'not implemented'): decode side only "
+        "(aug_decode_any_valid), tied by correspondence (hma.decode) with 32-bit values and extras; the extras themselves "
+        "are not observable through Keys()/Values() and are not modelled",
         "pruned-branch and library cells inside dictionaries: modelled and compared (damaged-tree stream), no theorem",
         "AddressWithWorkchain keys with a workchain outside int8: known finding (key type truncates the 32-bit field)",
     ],
@@ -45,7 +46,9 @@ PROP = dict(
                "widths, insertion-order independence of slice and encoding (put_sorted, build_perm, "
                "encode_order_independent); Get/Put agree with the mapping (get_spec, put_spec); Put on a decoded "
                "dictionary re-encodes to the updated mapping for every key family incl. signed (decode_then_put_encodes); "
-               "the pre-repair encoder fails on the Int8 witness (decode_then_put_unsorted_fails, by decide). "
+               "the pre-repair encoder fails on the Int8 witness (decode_then_put_unsorted_fails, by decide); encodeMap on the "
+               "numeric slice order of signed keys equals encodeMap on bit order (decode_encode_signed); HashmapAugE decode "
+               "(aug_decode_any_valid); the whole property in one statement (build_encode_decode). "
                "Tie: hand model, compared line by line with the real code on every run (exact tables of Marshal output, "
                "Keys/Values/Items/Get), plus direct oracles on the Go code alone.",
     level_note="trusted: Lean kernel, the hand model's correspondence harness and its independent dictionary writer, "
